@@ -5,6 +5,7 @@ pub mod c11;
 pub mod c12;
 pub mod c16;
 pub mod c17;
+pub mod c20;
 pub mod cmat;
 
 use crate::runner::Check;
@@ -22,5 +23,6 @@ pub fn all() -> Vec<Box<dyn Check>> {
         Box::new(c16::C16),
         Box::new(c17::C17),
         Box::new(cmat::C19),
+        Box::new(c20::C20),
     ]
 }
